@@ -1,6 +1,13 @@
 # which properties have an extracted model runner, and which translators regenerate coq/gen/*.v
-MODELS = ["C20"]
+import os, sys
+MODELS = ["C20", "C17"]
+
+
+def _kw():
+    sys.path.insert(0, os.path.join(os.path.dirname(os.path.abspath(__file__)), "..", "translate"))
+    import kw
+    kw.generate()
 
 
 def translators():
-    return []
+    return [("kw", _kw)]
